@@ -23,9 +23,17 @@ def to_py(v):
     raise ValueError(v)
 
 
+import re
+INSERT_SELECT = re.compile(r'^(WITH .*?\) )?(?:INSERT|REPLACE) INTO "(\w+)" \(([^)]*)\) SELECT ', re.S)
+FIXTURE_IDS = {}
+
+
 def fresh():
     con = sqlite3.connect(":memory:")
     con.executescript(gen_sqlite.SCHEMA)
+    if not FIXTURE_IDS:
+        for t in ("t", "u", "p"):
+            FIXTURE_IDS[t] = set(r[0] for r in con.execute("SELECT id FROM %s" % t).fetchall())
     return con
 
 
@@ -37,6 +45,16 @@ def run(sql, params=None, ordered=False):
         rows = cur.fetchall() if cur.description is not None else []
         con.commit()
         tables = {t: con.execute("SELECT * FROM %s ORDER BY id" % t).fetchall() for t in ("t", "u", "p")}
+        m = INSERT_SELECT.match(sql)
+        if m and '"id"' not in m.group(3):
+            # INSERT .. SELECT that leaves the id to the engine: which source row gets which new id depends on the
+            # order the engine scans the source in (its plan may differ between a literal and a bound parameter):
+            # the new rows are compared as a multiset, without their ids
+            t = m.group(2)
+            old = [r_ for r_ in tables[t] if r_[0] in FIXTURE_IDS[t]]
+            new = sorted(((None,) + tuple(r_[1:]) for r_ in tables[t] if r_[0] not in FIXTURE_IDS[t]),
+                         key=lambda r_: tuple((0, "") if x is None else (1, repr(x)) for x in r_))
+            tables[t] = old + new
     except sqlite3.Error as e:
         msg = str(e)
         kind = "syntax" if ("syntax error" in msg or "unrecognized token" in msg or "incomplete input" in msg) else "error"
